@@ -9,7 +9,9 @@ TB = ("Trusted: Coq 8.16.1 kernel/coqc (no native_compute), no axioms (Print Ass
 
 DIFF = (" The model is tied to /repo on every run by regenerating the can_catch/exit_code tables from src/error.rs and by a "
         "differential run of the extracted model against the real library (Rust driver over the public API, real construct!) "
-        "on generated cases under the property's projection; a property-specific oracle on the implementation's outputs "
+        "on generated cases under the property's projection (outcome class; value; help level; for failures WHICH error message "
+        "is reported: the text of the library must fit the frame of the message kind -- and carry the payload -- the model "
+        "predicts); a property-specific oracle on the implementation's outputs "
         "alone searches for a concrete failing input.")
 
 CHECKS = {
@@ -163,9 +165,12 @@ CHECKS = {
          "description, usage block, header, item lists, footer in that order (closed-prefix invariant over every Doc writer). "
          "Model/Help.v (Doc builder, normalize, write_meta, append_meta, Dedup, section grouping, render_help) is compared "
          "TOKEN FOR TOKEN with the library's Doc for --help at every command level on every run. "
+         "C12_item_list_is_its_entries / C12_section_is_header_and_entries / C12_dropped_items_are_duplicates (HelpEntries.v): an "
+         "item list written onto a document that does not end in a text chunk is EXACTLY the concatenation of the entries of the "
+         "items that survive the duplicate filter, a section is its header plus those entries, and an item is dropped only when "
+         "an entry with the same name, metavariable and help was already written. "
          "C12_help_document_total_balanced: for every parser definition whose own documents are balanced the help document "
-         "exists (the group loop terminates) and its blocks are balanced. Not a theorem: one "
-         "definition-list entry per non-duplicate item inside the writer, and the usage-line content (oracle / differential only).",
+         "exists (the group loop terminates) and its blocks are balanced. Not a theorem: the usage-line content (differential only).",
          "4/C12", "Rocq proof (item list = visible leaves; block order) + token-exact differential of the help Doc + AST oracle"),
  "C16": ("proof", "PARTIAL. Theorems in coq/Props/C16.v. Manpage, for EVERY document/help text/name/metavariable: no output line begins "
          "with `.` or `'` unless bpaf wrote that byte as the start of a request (invariant `really at line start => at_line_start` "
